@@ -68,6 +68,19 @@ def find_from_expression_element(segment: BaseSegment) -> Optional[BaseSegment]:
     return from_expression_element
 
 
+def unwrap_join_group(segment: BaseSegment) -> BaseSegment:
+    """
+    A parenthesised join group used as join operand, like: a JOIN (b AS x JOIN c ON ...) ON ...,
+    is parsed as from_expression_element > bracketed > (table_expression, alias_expression, join_clause, ...).
+    The bracketed segment then plays the role of from_expression_element for the first table of the group.
+    """
+    while (
+        bracketed := segment.get_child("bracketed")
+    ) is not None and bracketed.get_child("join_clause") is not None:
+        segment = bracketed
+    return segment
+
+
 def find_table_identifier(segment: BaseSegment) -> Optional[BaseSegment]:
     """
     recursively find table identifier
@@ -162,7 +175,7 @@ def list_subqueries(segment: BaseSegment) -> list[SubQueryTuple]:
                     if is_subquery(bracketed):
                         subquery.append(SubQueryTuple(bracketed, None))
     elif segment.type == "from_expression_element":
-        as_segment, target = extract_as_and_target_segment(segment)
+        as_segment, target = extract_as_and_target_segment(unwrap_join_group(segment))
         if is_subquery(target):
             subquery = [
                 SubQueryTuple(
